@@ -111,6 +111,7 @@ func TestCheck(t *testing.T) {
 		res := faults.Run(t, cs, baseOpts(), helloByProto["h2"], func(env *faults.Env) {
 			rep.Add("evaluations", 1)
 			rep.Note("distinct_nontrivial", fmt.Sprintf("%s/%s/ops=%d/bytes=%d", cs.Kind, cs.Proto, env.Ops, env.Bytes))
+			rep.Sample(map[string]any{"case": cs.String(), "server_io_ops_on_victim_conn": env.Ops, "victim_bytes_on_wire": env.Bytes})
 			if env.Victim == nil || env.Victim.Srv == nil {
 				rep.HarnessError("case %s: no victim connection", cs)
 				return
